@@ -24,6 +24,11 @@ pub use filter::{
     FilterConfig,
 };
 pub use recv::UnrecognizedFrame;
+#[cfg(feature = "verif-hooks")]
+pub(crate) use filter::{
+    rate_limiter::{Limiter, Quota, RateLimitedErr},
+    Filter,
+};
 
 /// Configuration for the sockets to listen on.
 ///
@@ -172,6 +177,25 @@ impl Socket {
             sender_exit: Some(sender_exit),
             recv_exit: Some(recv_exit),
         })
+    }
+}
+
+#[cfg(feature = "verif-hooks")]
+impl Socket {
+    /// Verification hook: a `Socket` whose send/recv ends are plain channels held by the caller
+    /// instead of UDP socket tasks.
+    pub(crate) fn verif_virtual(
+        send: mpsc::Sender<OutboundPacket>,
+        recv: mpsc::Receiver<RecvPacket>,
+    ) -> Self {
+        let (sender_exit, _) = oneshot::channel();
+        let (recv_exit, _) = oneshot::channel();
+        Socket {
+            send,
+            recv,
+            sender_exit: Some(sender_exit),
+            recv_exit: Some(recv_exit),
+        }
     }
 }
 
